@@ -176,6 +176,15 @@ def run(ck):
         want = (v & 0xFFFF).to_bytes(2, "little") + (v >> 16).to_bytes(2, "little")
         for s in spell:
             lit(rng.choice(asmk.ARCHES), "@dw ( %s ) & $ffff, ( ( %s ) >>> 16 ) & $ffff\n" % (s, s), "OK " + want.hex(), "number")
+            # the literal as the last token of its line: before LF, CR LF, a blank, a tab, a glued comment, a glued
+            # continuation, a glued closing bracket, and as the last bytes of the file
+            tail_want = "OK " + want.hex()
+            use = "@dw q9 & $ffff, ( q9 >>> 16 ) & $ffff"
+            for endt, sep in (("lf", "\n"), ("crlf", "\r\n"), ("blank", " \n"), ("tab", "\t\r\n"), ("comment", ";c\n"),
+                              ("continuation", "\\\n\n"), ("continuation-crlf", "\\\r\n\r\n")):
+                lit(rng.choice(asmk.ARCHES), "@defn q9, %s%s%s%s" % (s, sep, use, sep if "cont" not in endt else "\n"), tail_want, "number-last-" + endt)
+            lit(rng.choice(asmk.ARCHES), "@defn q9, (%s)\r\n%s\r\n" % (s, use), tail_want, "number-last-bracket")
+            lit(rng.choice(asmk.ARCHES), "@defn q9, 0\r\n%s\r\n@dw ( %s ) & $ffff, ( %s >>> 16 ) & $ffff" % (use, s, s), "OK 00000000" + want.hex(), "number-last-eof")
     for s in [str(2**32), "$100000000", "%" + "1" + "0" * 32, "$1ffffffff"]:
         lit("z80", "@dw %s & 1\n" % s, "DIAG", "number-too-large")
     for c in range(32, 127):
@@ -187,6 +196,18 @@ def run(ck):
         lit("z80", '@db "%s"\n' % e, "OK %02x" % v, "string-escape")
         lit("z80", '@db "a%sb"\n' % e, "OK 61%02x62" % v, "string-escape")
     lit("z80", "@dw 'ab'\n", "OK 6162", "char")
+    # an escape names one character whatever follows it (digits after \\0 are ordinary characters)
+    for e, v in ESCAPES.items():
+        for c in range(32, 127):
+            if chr(c) in '"\\':
+                continue
+            lit("z80", '@db "%s%s"\n' % (e, chr(c)), "OK %02x%02x" % (v, c), "string-escape-then-char")
+            if chr(c) != "'" and e != '\\"':
+                lit("z80", "@dw '%s%s'\n" % (e, chr(c)), "OK %02x%02x" % (v, c), "char-escape-then-char")
+        lit("z80", '@db "%s%s%s"\n' % (e, e, e), "OK " + ("%02x" % v) * 3, "string-escape-run")
+    for c in "0123456789abcdefABCDEFg$":
+        lit("z80", '@db "\\$41%s"\n' % c, "OK 41%02x" % ord(c), "hex-escape-then-char")
+        lit("z80", "@dw '\\$41%s'\n" % c, "OK 41%02x" % ord(c), "hex-escape-then-char")
     for hh in range(256):
         for f in ("%02x", "%02X"):
             h = f % hh
